@@ -38,6 +38,17 @@ pub fn arch_check(ctx: &Ctx, arch: Arch, stream: u64, rule: &str) -> i32 {
             report.violations.push(write_replay(ctx, "linear", &bytes, &f));
         }
     }
+    // third domain: directly generated Core programs taken through focusing, shrinking and
+    // linearization (AxCut shapes the Fun front end does not produce)
+    if report.violations.is_empty() {
+        let n4 = ctx.tier.pick(1500, 100000);
+        let run4 = |b: &[u8]| run_core_lin_case(ctx, arch, b, false).0;
+        let out4 = drive(&mut ev, ctx.seed, stream + 300, n4, 60, 1500, 300, &run4);
+        if let Some((bytes, f)) = out4.failure {
+            eprintln!("{}", f.summary);
+            report.violations.push(write_replay(ctx, "core-pipeline", &bytes, &f));
+        }
+    }
     // cross-check of the emulator itself (x86-64 only): a sample of the directly generated linear
     // programs is also assembled, linked with the repository's driver and run natively; the native
     // output/status must agree with the positional AxCut machine as well
@@ -119,6 +130,9 @@ pub fn replay(ctx: &Ctx, arch: Arch, sub: &str, bytes: &[u8], case: &serde_json:
     }
     if sub.starts_with("linear") {
         return run_lin_case(ctx, arch, &decode_lin(&lin_cfg_for(ctx, arch), bytes), false).0;
+    }
+    if sub.starts_with("core-pipeline") {
+        return run_core_lin_case(ctx, arch, bytes, false).0;
     }
     let c = fun_case_from_json(case).unwrap_or_else(|| decode(ctx, arch, bytes));
     run_fun_case(ctx, arch, &c.prog, &c.tuples, false).0
